@@ -255,6 +255,11 @@ def float_le(snap):
             if all(b.equal_rows(b.rows(el), rows[8 * k:8 * k + 8]) for k, el in enumerate(snap[5])):
                 y = norm(x[1])
                 narrowed = y[0] == "cast" and y[-1] == "f32"
+                src = norm(y[2]) if narrowed else y
+                # the number itself: the payload of the JSON accessor, nothing computed from it
+                plain = src[0] in ("someval", "okval") and src[1][0] == "call" and (src[1][2] or "").endswith("::as_f64")
+                if not plain:
+                    return None
                 if n == 4 and narrowed:
                     return "f32le"
                 if n == 8 and not narrowed:
@@ -265,23 +270,33 @@ def float_le(snap):
 
 
 def from_float_le(a):
-    """'f32le' / 'f64le' when the value is the float whose IEEE bits are the little-endian reading of n consecutive input bytes, in order"""
-    for t in sym.subterms(a):
-        if t[0] == "from_bits" and t[1][0] == "from_bytes" and t[1][1] == "le" and t[1][2] in ("u32", "u64"):
-            arr = t[1][3]
-            n = 4 if t[1][2] == "u32" else 8
-            if arr[0] == "agg" and arr[1] == "array" and len(arr[5]) == n:
-                idx = []
-                base = set()
-                for el in arr[5]:
-                    el = norm(el)
-                    if el[0] == "init" and el[1][0] == "I" and sym.is_c(el[1][2]):
-                        idx.append(el[1][2][1])
-                        base.add(el[1][1])
-                    else:
-                        return None
-                if idx == list(range(n)) and len(base) == 1:
-                    return "f32le" if n == 4 else "f64le"
+    """'f32le' / 'f64le' when the value is exactly the float whose IEEE bits are the little-endian reading of n consecutive input bytes,
+    in order (an f32 may be widened losslessly to f64 on the way; nothing else may happen to it)"""
+    t = norm(a)
+    for _ in range(4):
+        if t[0] == "call" and (t[2] or "").endswith(("convert::Into::into", "convert::From::from")) and len(t[3]) == 1:
+            t = norm(t[3][0])          # f64::from(f32) / f32.into(): judged lossless by the caller's token rule (only f32 -> f64 is silent)
+        elif t[0] == "cast" and t[1] == "FloatToFloat" and t[-1] == "f64":
+            t = norm(t[2])
+        else:
+            break
+    if not (t[0] == "from_bits" and t[1][0] == "from_bytes" and t[1][1] == "le" and t[1][2] in ("u32", "u64")):
+        return None
+    arr = t[1][3]
+    n = 4 if t[1][2] == "u32" else 8
+    if not (arr[0] == "agg" and arr[1] == "array" and len(arr[5]) == n):
+        return None
+    idx = []
+    base = set()
+    for el in arr[5]:
+        el = norm(el)
+        if el[0] == "init" and el[1][0] == "I" and sym.is_c(el[1][2]):
+            idx.append(el[1][2][1])
+            base.add(el[1][1])
+        else:
+            return None
+    if idx == list(range(n)) and len(base) == 1:
+        return "f32le" if n == 4 else "f64le"
     return None
 
 
